@@ -107,3 +107,37 @@ def gen_attack_modules(tier):
             out.append(("k%d" % n, text, vis == "priv", {"shape": "visibility", "vis": vis, "attack": "name_" + what, "legal": vis != "priv"}))
             n += 1
     return out
+
+
+def gen_gate_modules():
+    """modules for a crate whose nutype dependency has the new_unchecked feature OFF: the flag
+    must be refused however it is placed; the same declarations without the flag must compile"""
+    out = []
+    n = 0
+    for sname, (inner, mk, raw) in SHAPES.items():
+        has_val = sname != "novalid"
+        fr = runner.fn_render(inner)
+        raw_owned = raw if inner != "String" else "String::from(%s)" % raw
+        ctor = ("T::try_new(%s).unwrap()" % raw) if has_val else ("T::new(%s)" % raw)
+        for place in ("none", "first", "last"):
+            blocks = mk()
+            if place == "first":
+                blocks = [[tid("new_unchecked")]] + blocks
+            elif place == "last":
+                blocks = blocks + [[tid("new_unchecked")]]
+            attr_text = runner.toks_rust(attr(blocks), fr)
+            uses = [("declare_only", "let t = %s;" % ctor)]
+            if place != "none":
+                uses.append(("call_unsafe", "let x = unsafe { T::new_unchecked(%s) };" % raw_owned))
+                uses.append(("fn_pointer", "let f: unsafe fn(%s) -> T = T::new_unchecked;" % inner))
+            else:
+                uses.append(("call_unsafe_no_flag", "let x = unsafe { T::new_unchecked(%s) };" % raw_owned))
+            for uname, body in uses:
+                legal = place == "none" and uname == "declare_only"
+                text = ("pub mod q%d {\n    #![allow(dead_code, unused_imports, unused_variables, unused_mut, unused_unsafe)]\n"
+                        "    pub mod decl {\n        use super::super::rt::*;\n        use nutype::nutype;\n        #[nutype(%s)]\n        pub struct T(%s);\n    }\n"
+                        "    use decl::T;\n    pub fn attack() { %s }\n}\n" % (n, attr_text, inner, body))
+                out.append(("q%d" % n, text, not legal, {"shape": sname, "flags": "new_unchecked:" + place, "attack": "feature_off_" + uname,
+                                                          "where": "crate without the new_unchecked feature", "legal": legal}))
+                n += 1
+    return out
